@@ -294,6 +294,32 @@ def case_misc(col, p):
         if not np.array_equal(got, ex):
             col.violation('C08:project:mask_window', dict(p, m=[n // 2, 3], h=[n // 2, 1]), {'masked': int(got.sum()), 'expected': int(ex.sum())})
         col.tick(states=cnt + 1)
+    elif what == 'upward':
+        # a target larger than the number of chromosomes called: no weight at all, whatever the number of derived alleles (the site is dropped)
+        from dadi import Numerics
+        for n_ in range(0, 9):
+            for m_ in range(n_ + 1, 11):
+                for h_ in range(n_ + 1):
+                    w = np.asarray(Numerics._cached_projection(m_, n_, h_), dtype=float)
+                    col.tick(transitions=1)
+                    if w.shape != (m_ + 1,) or np.any(w != 0):
+                        col.violation('C08:_cached_projection:upward_projection_has_weight', dict(p, m=m_, n=n_, h=h_), {'weights': w})
+    elif what == 'lowpass_symmetry':
+        # the low-pass subsampling matrix (with or without inbreeding): relabelling the alleles mirrors it, and the expected derived count
+        # is preserved in proportion (h * nsub / n) - subsampling individuals has no preferred allele
+        import dadi.LowPass.LowPass as LP
+        for n_ in (4, 6, 8):
+            for nsub_ in range(2, n_ + 1, 2):
+                for F in (0, 0.1, 0.5, 0.9):
+                    M = np.asarray(LP.projection_matrix(n_, nsub_, F), dtype=float)
+                    col.tick(transitions=1)
+                    if not np.allclose(M, M[::-1, ::-1], rtol=0, atol=1e-10):
+                        col.violation('C08:lowpass_projection_matrix:not_mirror_symmetric', dict(p, n=n_, nsub=nsub_, F=F),
+                                      {'maxdiff': float(np.abs(M - M[::-1, ::-1]).max())})
+                    mean = M @ np.arange(nsub_ + 1)
+                    ex = np.arange(n_ + 1) * nsub_ / float(n_)
+                    if not np.allclose(mean, ex, rtol=0, atol=1e-9):
+                        col.violation('C08:lowpass_projection_matrix:expected_count', dict(p, n=n_, nsub=nsub_, F=F), {'got': mean, 'exp': ex})
     elif what == 'lowpass_deep':
         # the low-pass wrapper with every individual deeply covered is the plain projection, for 1-3 populations (incl. equal sizes in pops 2,3)
         from dadi.LowPass import LowPass as LP
@@ -563,6 +589,8 @@ def run(ctx):
         cases.append({'kind': 'misc', 'what': 'neutral_fixed_point', 'n': n})
     cases.append({'kind': 'misc', 'what': 'upward'})
     cases.append({'kind': 'misc', 'what': 'lowpass_deep'})
+    cases.append({'kind': 'misc', 'what': 'upward'})
+    cases.append({'kind': 'misc', 'what': 'lowpass_symmetry'})
     for n in (41, 66, 100, 200):
         cases.append({'kind': 'misc', 'what': 'mask_window', 'n': n})
     cases.append({'kind': 'cache_history', 'depth': 2 if ctx.quick else 3})
